@@ -133,7 +133,7 @@ Qed.
 
 Section OnR.
 Variables Phi Phiinv : R -> R.
-Hypothesis GF : GaussFacts Phi Phiinv.
+Hypothesis GF : GaussCDF Phi Phiinv.
 Local Hint Extern 0 (Num R) => exact (RN Phi Phiinv) : typeclass_instances.
 
 Implicit Types (beta : R) (teams : list (list (rating R))).
@@ -145,7 +145,7 @@ Proof.
 Qed.
 
 Lemma rankterm_range beta n N a b : 0 < rankterm Phi Phiinv beta n N a b < 1.
-Proof. unfold rankterm. apply (gf_range _ _ GF). Qed.
+Proof. unfold rankterm. apply (gc_range _ _ GF). Qed.
 
 Lemma Rsum_map_range {A} (f : A -> R) l :
   (forall a, In a l -> 0 < f a < 1) -> 0 <= Rsum (map f l) <= INR (length l).
